@@ -67,7 +67,25 @@ type L2EnvOpts struct {
 }
 
 func newL2Env(o L2EnvOpts) *L2Env {
-	e := &L2Env{Admin: sim.NewAccount("l2admin"), BridgeID: o.BridgeID, L1ChainID: "l1-chain"}
+	vals := o.GenesisVals
+	if vals == nil {
+		vals = []ValKey{NewValKey(100)}
+	}
+	var gvals []opchildtypes.Validator
+	for _, v := range vals {
+		gvals = append(gvals, v.Validator())
+	}
+	e, err := newL2EnvGen(o, gvals)
+	if err != nil {
+		panic(err)
+	}
+	return e
+}
+
+// newL2EnvGen starts an L2 from an arbitrary genesis validator list. The genesis must pass the module's own
+// ValidateGenesis (error otherwise); an error is also returned if InitGenesis panics or the engine refuses its batch.
+func newL2EnvGen(o L2EnvOpts, gvals []opchildtypes.Validator) (e *L2Env, err error) {
+	e = &L2Env{Admin: sim.NewAccount("l2admin"), BridgeID: o.BridgeID, L1ChainID: "l1-chain"}
 	if e.BridgeID == 0 {
 		e.BridgeID = 1
 	}
@@ -85,18 +103,21 @@ func newL2Env(o L2EnvOpts) *L2Env {
 		hmg = opchildtypes.DefaultHookMaxGas
 	}
 	params := opchildtypes.NewParams(e.Admin.String(), []string{e.Executors[0].String(), e.Executors[1].String()}, maxV, o.Historical, o.MinGasPrices, o.FeeWhitelist, hmg)
-	vals := o.GenesisVals
-	if vals == nil {
-		vals = []ValKey{NewValKey(100)}
-	}
-	var gvals []opchildtypes.Validator
-	for _, v := range vals {
-		gvals = append(gvals, v.Validator())
-	}
 	gs := opchildtypes.NewGenesisState(params, gvals, nil)
 	gs.NextL1Sequence, gs.NextL2Sequence = 1, 1
-	if _, err := e.L2.InitGenesis(gs); err != nil {
-		panic(err)
+	if verr := opchildtypes.ValidateGenesis(gs, e.L2.AK.AddressCodec()); verr != nil {
+		return nil, fmt.Errorf("%w: %v", ErrGenesisRefused, verr)
+	}
+	if ierr := func() (err error) {
+		defer func() {
+			if r := recover(); r != nil {
+				err = fmt.Errorf("InitGenesis panicked: %v", r)
+			}
+		}()
+		_, err = e.L2.InitGenesis(gs)
+		return err
+	}(); ierr != nil {
+		return e, ierr
 	}
 	if !o.NoBridgeInfo {
 		res := e.L2.Deliver(opchildtypes.NewMsgSetBridgeInfo(e.Executors[0].String(), e.BridgeInfo("", o.OracleEnabled)))
@@ -104,8 +125,11 @@ func newL2Env(o L2EnvOpts) *L2Env {
 			panic("set bridge info: " + res.ErrString())
 		}
 	}
-	return e
+	return e, nil
 }
+
+// ErrGenesisRefused: the module's ValidateGenesis did not accept the genesis.
+var ErrGenesisRefused = fmt.Errorf("genesis refused by ValidateGenesis")
 
 func (e *L2Env) BridgeInfo(clientID string, oracle bool) opchildtypes.BridgeInfo {
 	// proposer / challenger are L1 accounts, written in the L1's own address format (another bech32 prefix)
